@@ -41,3 +41,14 @@ Proof.
   intros t H. rewrite Gen_check_token_name_eq in H. unfold gfs_safe.
   rewrite Gen_is_safe_filesystem_path_component_eq. apply check_token_name_safe. exact H.
 Qed.
+
+Require Import RV.Proofs.PathIdem RV.Model.Shell RV.Proofs.ShellProofs.
+
+Lemma c06_sanitize_idempotent : forall s, PathGen.sanitize_path (PathGen.sanitize_path s) = PathGen.sanitize_path s.
+Proof. intros s. rewrite !Gen_sanitize_path_eq. apply sanitize_path_idempotent. Qed.
+
+Lemma c06_comps : forall s, comps (PathGen.sanitize_path s) = safe_parts s /\ Forall gsafe (safe_parts s).
+Proof.
+  intros s. rewrite Gen_sanitize_path_eq. split; [apply comps_sanitize|].
+  eapply Forall_impl; [|apply safe_parts_safe]. intros a Ha. unfold gsafe. rewrite Gen_is_safe_path_component_eq. exact Ha.
+Qed.
